@@ -37,11 +37,14 @@ type k3thread struct {
 	parked bool
 	done   bool
 	anon   bool
+	parks  int // number of times it parked
+	seenAt int // park counter at the last release: events with n <= seenAt are stale
 }
 
 type k3event struct {
 	t    *k3thread
 	done bool
+	n    int // the thread's park counter when the event was produced
 }
 
 type K3Stuck struct{ What string }
@@ -123,8 +126,10 @@ func (c *Ctl) point(obj any, label string) {
 	}
 	t.label = label
 	t.parked = true
+	t.parks++
+	n := t.parks
 	c.mu.Unlock()
-	c.events <- k3event{t: t}
+	c.events <- k3event{t: t, n: n}
 	<-t.wake
 }
 
@@ -183,10 +188,15 @@ func (c *Ctl) waitFor(t *k3thread, spawns int) ([]*k3thread, error) {
 		select {
 		case e := <-c.events:
 			if e.t == t {
-				got = true
+				if e.done || e.n > t.seenAt {
+					got = true
+				}
+				// else: a stale event of an earlier park of this thread
 			} else if !e.done {
-				fresh = append(fresh, e.t)
-				spawns--
+				if e.n > e.t.seenAt {
+					fresh = append(fresh, e.t)
+					spawns--
+				}
 			}
 		case <-deadline:
 			return fresh, K3Stuck{fmt.Sprintf("timeout waiting for %v (spawns outstanding %d); trace tail %v", tname(t), spawns, tail(c.Trace, 12))}
@@ -280,6 +290,7 @@ func (c *Ctl) Step(name string) (from, to string, fresh []*k3thread, err error) 
 	from = t.label
 	c.mu.Lock()
 	t.parked = false
+	t.seenAt = t.parks
 	c.mu.Unlock()
 	t.wake <- struct{}{}
 	fresh, err = c.waitFor(t, spawns)
